@@ -5,7 +5,7 @@ import treeutil as tu
 from common import time_limit
 
 ID = "C16"
-GEN_DEPENDS = ["C16Alphabets"]
+GEN_DEPENDS = ["C16Alphabets", "C16Kernels"]
 RULE = ("random fully bifurcating trees (2-9 leaves quick, up to 14 thorough; random taxon->leaf assignment, namespaces larger than the "
         "leaf set) x histories of 1-5 scoring calls on one tree object and its clones (Tree.clone(1), Tree(tree)), each call with its own "
         "matrix (DNA/RNA/nucleotide with IUPAC ambiguity codes, protein with B/Z/X, 10-state standard; 20%: matrices whose columns have their "
@@ -19,6 +19,12 @@ RULE = ("random fully bifurcating trees (2-9 leaves quick, up to 14 thorough; ra
         "gap modes, judged on their current content; re-rooted (every sequence of root slides) and child-shuffled copies; a malformed "
         "stream (polytomies, unary nodes, leaves whose taxon has no row) for the correspondence only. Thorough adds every ordered binary shape "
         "<= 6 leaves x every 2-state column (4 characters per matrix, all matrices scored in sequence on one tree object) x every root position. "
+        "22% extended histories (xhist): tree objects of SEVERAL trees over one namespace (fresh, cloned, re-rooted, shuffled, a different random "
+        "tree), taxon_state_sets_map objects built once (from a literal matrix or from the current content of a matrix object that is edited "
+        "afterwards) and passed to 3-9 direct fitch_down_pass calls with state_sets_attr_name None / default (passed or omitted) / two custom "
+        "names, one shared weight list and one shared score_by_character_list object (or None), interleaved with parsimony_score / "
+        "treescore.parsimony_score, in-place matrix edits, fitch_up_pass (with and without a map) and dumps of the node attributes; oracle per "
+        "call: the independent minimum AND the caller's map and weight list deep-equal to a snapshot taken before the call. "
         "Non-trivial = at least two scoring calls on one tree object (or its clones), or a re-rooted/shuffled copy")
 MODELLED_NOT_VERIFIED = [
     "C16: Model/C16.lean (stepNode/foldKids/pairLoop/runNodes, attribute store) is hand-written from parsimony.fitch_down_pass / "
@@ -27,8 +33,18 @@ MODELLED_NOT_VERIFIED = [
     "harness/gen/c16alphabets.py, only the symbol tables are extracted from charstatemodel.py; the rules are tied to the code by the `sets` "
     "comparison of every generated row with the real taxon_state_sets_map; custom per-column alphabets are described to the model by "
     "their definition (fundamental symbols, ambiguity members, gap/missing flag) and follow the same rules (Model customSet)",
-    "C16: fitch_up_pass is outside the statement and is not modelled; weights are natural numbers (negative weights have no minimum reading); "
-    "post-order iteration is taken from C15; which exception class a call outside the statement raises is not compared (only that it raises)",
+    "C16: the per-character set kernels of fitch_down_pass (intersection/union choice, the +1, the per-character increment, wt=1) and of "
+    "fitch_up_pass (final set) are REGENERATED from the source (Gen/C16Kernels, harness/gen/c16kernels.py) and proved equal to the model's "
+    "comb / finalSet (comb_eq_source, bychar_eq_source, unit_weight_eq_source, finalSet_eq_source); the loops around them (zip, fold over "
+    "children, post-/pre-order, attribute store per attribute name, no store for state_sets_attr_name=None, partial writes before an exception) are "
+    "hand-written in Model/C16.lean + Model/C16Ext.lean and tied by comparison of scores, per-character lists AND node attributes after down "
+    "and up passes (dumps, up to a renumbering of each character's states)",
+    "C16: fitch_up_pass is outside the statement: its model (runUp/upPass) is compared with the code (dumps of the node attributes), its kernel "
+    "is tie A, and up_pass_exact proves the model exact on fully bifurcating trees with a binary root (a basal trifurcation and polytomies "
+    "- AssertionError below the root - are compared only). Weights are natural numbers (negative weights have no minimum reading); "
+    "post-order iteration is taken from C15; which exception class a call outside the statement raises is not compared (only that it raises); "
+    "fitch_down_pass with taxon_state_sets_map=None (leaves must already carry their sets) and the TaxonNamespaceIdentityError of parsimony_score "
+    "are not modelled",
 ]
 EXPLANATION = ("Theorems about the functions the driver runs (parsimony = runNodes/stepNode/foldKids/pairLoop/shortHit over the post-order with "
                "the node-attribute store; reroot; runHist; rowOfSymbols). Refinement for EVERY input: result_independent_of_attrs (any tree "
@@ -52,7 +68,18 @@ EXPLANATION = ("Theorems about the functions the driver runs (parsimony = runNod
                "objects: editCell_content, editSeq_content, mat_history_eq_fresh (histories with in-place matrix edits: every call = fresh "
                "tree + freshly built matrix of the current content). In-place matrix "
                "edits are made by the model on its own matrix objects (mat_history_eq_fresh) and compared per call; polytomy_score_minimal is the minimum of the "
-               "ladder resolution, a lower bound of the polytomy's own minimum. No _partial theorem. "
+               "ladder resolution, a lower bound of the polytomy's own minimum. "
+               "Extended histories (Model/C16Ext: runXHist/stepX, driver op xhist): xstep_score_eq_fresh (in ANY state - whatever attributes under "
+               "whatever attribute names were left by down passes, up passes, failing calls or clone, whatever matrix and map objects exist - a "
+               "scoring call with state_sets_attr_name None/default/custom observes what a fresh copy of that object's tree observes with the "
+               "matrix the source denotes: literal, current content of a matrix object, or the content a taxon_state_sets_map object was built "
+               "from), xstep_inputs_untouched (no pass changes a matrix or map object; a call without attribute store changes nothing). Tie A: "
+               "comb_eq_source, bychar_eq_source, unit_weight_eq_source, finalSet_eq_source. Up pass: root_set_mpr (the root's down-pass set = the root "
+               "states of most-parsimonious reconstructions), up_pass_mpr (per character: after the up pass every internal node's set = exactly the states it "
+               "takes in some most-parsimonious reconstruction, for the recursion finAt over the driver's kernel finalSet), up_pass_machine "
+               "(down_stored/up_stored: the machines the driver runs - parsimonyP then upPass on the attribute store, any earlier attributes - "
+               "leave on every node the row whose character c is finalAt (col c bv)), up_pass_exact (both combined: all characters, every "
+               "internal node, on View trees with distinct nodes). No _partial theorem. "
                "Hypotheses: distinct node identities; for the value theorems ViewU, RectM (rows of one length), one weight per character.")
 
 # ------------------------------------------------------------------ independent state-set semantics (the oracle's own tables)
@@ -694,10 +721,12 @@ def flush(ctx, pending):
         ctx.compared()
         if opname == "hist":
             m = canon_model(m)
+        elif opname == "xhist" and m.strip() != "bad-op":
+            m = canon_xmodel(m, case)
         elif opname == "sets" and got != "bad-symbol" and m.strip() not in ("bad-symbol", "bad-op"):
             m = shape_of_masks(m)
         if m.strip() != got.strip():
-            ctx.disagree(opname, case if opname == "hist" else {"line": line}, got, m)
+            ctx.disagree(opname, case if opname in ("hist", "xhist") else {"line": line}, got, m)
     del pending[:]
 
 
@@ -901,6 +930,369 @@ def gen_malformed(dendropy, rng, max_leaves):
     return {"tree": toks, "base": None, "how": "malformed", "ops": ops}
 
 
+# ------------------------------------------------------------------ extended histories: several trees, caller-supplied objects reused
+ATTR_NAME = {"default": "state_sets", "other": "c16_sets", "third": "c16_b"}
+ATTR_STORE = {None: "-", "default": "0", "other": "1", "third": "2"}
+
+
+def rand_nested(rng, bits, triroot=False):
+    """a random fully bifurcating tree (nested form, ids filled in later by nested_tokens) over the given leaf bits"""
+    def go(bs):
+        if len(bs) == 1:
+            return (0, bs[0], [])
+        k = rng.randint(1, len(bs) - 1)
+        return (0, None, [go(bs[:k]), go(bs[k:])])
+    bs = list(bits)
+    rng.shuffle(bs)
+    if triroot and len(bs) >= 3:
+        c = sorted(rng.sample(range(1, len(bs)), 2))
+        return (0, None, [go(bs[:c[0]]), go(bs[c[0]:c[1]]), go(bs[c[1]:])])
+    return go(bs)
+
+
+def dump_canon(rows):
+    """node attributes in pre-order up to a renumbering of each character's states: per node `x` (no attribute) or the number of sets;
+    per character the sizes and pairwise intersection sizes of the sets of the nodes that have that character"""
+    head = " ".join("x" if r is None else str(len(r)) for r in rows)
+    width = max([len(r) for r in rows if r is not None] or [0])
+    cols = []
+    for c in range(width):
+        cols.append(set_shape([r[c] for r in rows if r is not None and c < len(r)]))
+    return head + " :: " + " ; ".join(cols)
+
+
+def dump_of_model(text):
+    text = text.strip()
+    if text == "-":
+        return dump_canon([])
+    rows = []
+    for part in text.split(";"):
+        part = part.strip()
+        if part == "x":
+            rows.append(None)
+        elif part == "e":
+            rows.append([])
+        else:
+            rows.append([frozenset(i for i in range(int(x).bit_length()) if (int(x) >> i) & 1) for x in part.split(",")])
+    return dump_canon(rows)
+
+
+def snapshot_map(tsm):
+    return None if tsm is None else {id(k): (k, [frozenset(x) for x in v]) for k, v in tsm.items()}
+
+
+def map_unchanged(tsm, snap):
+    if tsm is None:
+        return True
+    if set(id(k) for k in tsm) != set(snap):
+        return False
+    for k, v in tsm.items():
+        old = snap[id(k)][1]
+        if len(v) != len(old) or any(frozenset(a) != b for a, b in zip(v, old)):
+            return False
+    return True
+
+
+def src_text(src, midx, pidx):
+    if "map" in src:
+        return "map %d" % pidx[src["map"]]
+    if "mat" in src:
+        return "mat %d %d" % (midx[src["mat"]], 1 if src["gaps"] else 0)
+    return "lit %s %d %s" % (src["alph"], 1 if src["gaps"] else 0, " ".join("%d =%s" % (b, sy) for b, sy in src["rows"]))
+
+
+def run_xcase(ctx, dendropy, case, pending):
+    """one extended history: tree objects of several trees over one taxon namespace, matrix objects, taxon_state_sets_map objects built
+    once and reused, one weight list and one score_by_character_list object reused, every state_sets_attr_name setting, up passes and
+    dumps of the node attributes.  Oracle per scoring call: the independent minimum; the caller's map and weight objects are deep-equal
+    to a snapshot taken before the call."""
+    from dendropy.model import parsimony
+    from dendropy.calculate import treescore
+    ops = case["ops"]
+    bits = []
+    for op in ops:
+        if op["op"] == "N":
+            bits += [x for x in toks_struct(op["tree"])[2].values() if x is not None]
+        for holder in (op, op.get("src") or {}):
+            if holder.get("rows"):
+                bits += [b for b, _ in holder["rows"]]
+    tns = dendropy.TaxonNamespace(["t%d" % i for i in range(max(bits) + 1 if bits else 1)])
+    objs = []            # (tree object, tokens)
+    mats = {}            # key -> {"m", "alph", "rows"}
+    maps = {}            # key -> {"tsm", "alph", "rows", "gaps"} : the content at the time the map was built
+    midx, pidx = {}, {}
+    shared_w = case.get("shared_weights")
+    shared_by = []
+    results, lines = [], []
+    nscore = nreuse = 0
+    used_maps = {}
+    for k, op in enumerate(ops):
+        o = op["op"]
+        if o == "N":
+            objs.append((tu.tree_from_tokens(dendropy, op["tree"], tns=tns)[0], op["tree"]))
+            lines.append("N " + " ".join(op["tree"]))
+            results.append("n")
+        elif o == "C":
+            src, toks = objs[op["obj"]]
+            objs.append((src.clone(1) if op.get("how", "clone") == "clone" else dendropy.Tree(src), toks))
+            lines.append("C %d" % op["obj"])
+            results.append("c")
+        elif o == "M":
+            mats[op["mat"]] = {"m": build_matrix(dendropy, tns, op), "alph": op["alph"], "rows": [list(r) for r in op["rows"]]}
+            midx.setdefault(op["mat"], len(midx))
+            lines.append("M %d %s %s" % (midx[op["mat"]], op["alph"], " ".join("%d =%s" % (b, sy) for b, sy in op["rows"])))
+            results.append("m")
+        elif o == "E":
+            ent = mats[op["mat"]]
+            apply_edit(dendropy, tns, ent["m"], op)
+            for row in ent["rows"]:
+                if row[0] == op["bit"]:
+                    row[1] = op["syms"] if op["how"] == "seq" else row[1][:op["idx"]] + op["sym"] + row[1][op["idx"] + 1:]
+            if op["how"] == "seq":
+                lines.append("E %d seq %d =%s" % (midx[op["mat"]], op["bit"], op["syms"]))
+            else:
+                lines.append("E %d cell %d %d =%s" % (midx[op["mat"]], op["bit"], op["idx"], op["sym"]))
+            results.append("m")
+        elif o == "T":
+            src = op["src"]
+            if "mat" in src:
+                ent = mats[src["mat"]]
+                content = {"alph": ent["alph"], "rows": [list(r) for r in ent["rows"]], "gaps": src["gaps"]}
+                m = ent["m"]
+            else:
+                content = {"alph": src["alph"], "rows": [list(r) for r in src["rows"]], "gaps": src["gaps"]}
+                m = build_matrix(dendropy, tns, src)
+            maps[op["map"]] = dict(content, tsm=m.taxon_state_sets_map(gaps_as_missing=src["gaps"]))
+            pidx.setdefault(op["map"], len(pidx))
+            lines.append("T %d %s" % (pidx[op["map"]], src_text(src, midx, pidx)))
+            results.append("m")
+        elif o == "S":
+            tree, toks = objs[op["obj"]]
+            src = op["src"]
+            if "map" in src:
+                ent = maps[src["map"]]
+                call = {"alph": ent["alph"], "rows": ent["rows"], "gaps": ent["gaps"]}
+                tsm, m = ent["tsm"], None
+                used_maps[src["map"]] = used_maps.get(src["map"], 0) + 1
+                if used_maps[src["map"]] > 1:
+                    nreuse += 1
+            elif "mat" in src:
+                ent = mats[src["mat"]]
+                call = {"alph": ent["alph"], "rows": [list(r) for r in ent["rows"]], "gaps": src["gaps"]}
+                m, tsm = ent["m"], None
+            else:
+                call = {"alph": src["alph"], "rows": src["rows"], "gaps": src["gaps"]}
+                m, tsm = build_matrix(dendropy, tns, src), None
+            ws = shared_w if op.get("weights") == "shared" else op.get("weights")
+            call["weights"] = None if ws is None else list(ws)
+            by = None
+            if op.get("by", True):
+                by = shared_by if op.get("by") == "shared" else []
+                del by[:]
+            via = op.get("via", "down")
+            attr = op.get("attr")
+            if via == "down" and tsm is None:
+                tsm = m.taxon_state_sets_map(gaps_as_missing=src["gaps"])
+            snap = snapshot_map(tsm)
+            wsnap = None if ws is None else list(ws)
+            nscore += 1
+            try:
+                with time_limit(30):
+                    if via == "parsimony":
+                        sc = parsimony.parsimony_score(tree, m, gaps_as_missing=src["gaps"], weights=ws, score_by_character_list=by)
+                    elif via == "treescore":
+                        sc = treescore.parsimony_score(tree, m, gaps_as_missing=src["gaps"], weights=ws, score_by_character_list=by)
+                    else:
+                        kw = {} if attr == "default" and op.get("implicit") else {"state_sets_attr_name": ATTR_NAME.get(attr)}
+                        sc = parsimony.fitch_down_pass(tree.postorder_node_iter(), taxon_state_sets_map=tsm, weights=ws,
+                                                       score_by_character_list=by, **kw)
+                got = "ok %d" % sc + ("" if by is None else " " + (",".join(str(x) for x in by) if by else "-"))
+            except Exception as e:
+                if not is_library_exception(e):
+                    raise
+                got = "Error"
+            ctx.count("result " + got.split()[0])
+            ctx.count("entry point %s%s" % (via, "" if via != "down" else " attr=%s" % attr))
+            results.append(got)
+            store = "0" if via != "down" else ATTR_STORE[attr]
+            w = "-" if ws is None else (",".join(str(x) for x in ws) or ".")
+            lines.append("S %d %s %s %s" % (op["obj"], store, w, src_text(src, midx, pidx)))
+            # --- oracle 1: the caller's objects are what they were before the call
+            if not map_unchanged(tsm, snap):
+                ctx.fail("input_mutated", "call %d (%s, state_sets_attr_name=%r) changed the caller's taxon_state_sets_map: the score is to be a "
+                         "function of the tree and the data passed in, which are only read" % (k, via, ATTR_NAME.get(attr)), dict(case, failed_call=k))
+                if "map" in src:      # later calls are judged against what the caller built, not against the damaged object
+                    pass
+            if ws is not None and list(ws) != wsnap:
+                ctx.fail("input_mutated", "call %d (%s) changed the caller's weight list from %s to %s" % (k, via, wsnap, list(ws)),
+                         dict(case, failed_call=k))
+            # --- oracle 2: the independent minimum
+            ex = expected(nested(toks), call)
+            if ex is not None:
+                want = "ok %d" % ex[0] + ("" if by is None else " " + (",".join(str(x) for x in ex[1]) if ex[1] else "-"))
+                if got != want:
+                    kind = "minimal"
+                    what = "call %d (%s, state_sets_attr_name=%r, %s, gaps_as_missing=%s, weights=%s) returned [%s]; the minimum number of changes gives [%s]" % (
+                        k, via, ATTR_NAME.get(attr) if via == "down" else "state_sets", call["alph"], call["gaps"], call["weights"], got, want)
+                    if "map" in src and used_maps[src["map"]] > 1:
+                        ftree = tu.tree_from_tokens(dendropy, toks, tns=tns)[0]
+                        fm = build_matrix(dendropy, tns, call)
+                        fresh, _ = impl_call(dendropy, ftree, tns, dict(call, via="parsimony"), fm)
+                        fresh_cmp = fresh if by is not None else " ".join(fresh.split()[:2])
+                        if fresh_cmp != got:
+                            kind = "map_history"
+                        what += ("; the taxon_state_sets_map object was passed to %d earlier call(s); a fresh tree with a freshly built matrix of "
+                                 "the same content scores [%s]" % (used_maps[src["map"]] - 1, fresh))
+                    elif nscore > 1:
+                        kind = "history"
+                    ctx.fail(kind, what, dict(case, failed_call=k))
+        elif o == "U":
+            tree, toks = objs[op["obj"]]
+            tsm = maps[op["map"]]["tsm"] if op.get("map") is not None else None
+            snap = snapshot_map(tsm)
+            try:
+                with time_limit(30):
+                    parsimony.fitch_up_pass(tree.preorder_node_iter(), state_sets_attr_name=ATTR_NAME[op["attr"]], taxon_state_sets_map=tsm)
+                got = "u"
+            except (Exception, AssertionError) as e:
+                if not is_library_exception(e):
+                    raise
+                got = "Error"
+            if not map_unchanged(tsm, snap):
+                ctx.fail("input_mutated", "fitch_up_pass (op %d) changed the caller's taxon_state_sets_map" % k, dict(case, failed_call=k))
+            ctx.count("up pass " + got)
+            results.append(got)
+            lines.append("U %d %s %s" % (op["obj"], ATTR_STORE[op["attr"]], "-" if op.get("map") is None else pidx[op["map"]]))
+        elif o == "D":
+            tree, toks = objs[op["obj"]]
+            rows = [getattr(nd, ATTR_NAME[op["attr"]], None) for nd in tree.preorder_node_iter()]
+            results.append("D " + dump_canon([None if r is None else [frozenset(x) for x in r] for r in rows]))
+            lines.append("D %d %s" % (op["obj"], ATTR_STORE[op["attr"]]))
+            ctx.count("node attribute dumps compared")
+        else:
+            raise RuntimeError("harness: unknown op %r" % (o,))
+    ctx.case(["x", ops, shared_w], nscore >= 2, sample=case, kind="extended history (maps reused, attribute names, up pass)")
+    if nreuse:
+        ctx.count("scoring calls on a taxon_state_sets_map object used before", nreuse)
+    pending.append(("xhist " + " | ".join(lines), case, " | ".join(results), "xhist"))
+
+
+def canon_xmodel(text, case):
+    out = []
+    parts = [r.strip() for r in text.split("|")]
+    ops = case["ops"]
+    for i, r in enumerate(parts):
+        op = ops[i] if i < len(ops) else {}
+        if r in ("KeyError", "ValueError", "IndexError", "AttributeError", "AssertionError"):
+            r = "Error"
+        elif op.get("op") == "D" and not r.startswith("bad"):
+            r = "D " + dump_of_model(r)
+        elif op.get("op") == "S" and r.startswith("ok ") and not op.get("by", True):
+            r = " ".join(r.split()[:2])
+        out.append(r)
+    return " | ".join(out)
+
+
+def gen_src_lit(rng, bits, spare):
+    call = gen_call(rng, bits, 0, spare if rng.random() < 0.2 else ())
+    return {"alph": call["alph"], "rows": call["rows"], "gaps": call["gaps"]}
+
+
+def gen_map_history(dendropy, rng, max_leaves):
+    """the documented "build the map once" usage: taxon_state_sets_map objects (and one weight list, one score_by_character_list) reused
+    over several direct fitch_down_pass / fitch_up_pass calls with every state_sets_attr_name setting, on the same, cloned, re-rooted,
+    shuffled and different trees, interleaved with parsimony_score and in-place matrix edits"""
+    n = rng.randint(2, max_leaves)
+    toks, bits, spare = gen_tree(dendropy, rng, n, triroot=rng.random() < 0.12)
+    ops = [{"op": "N", "tree": toks}]
+    nobj = 1
+    base = nested(toks)
+    nmat = rng.choice([1, 1, 2])
+    content = {}
+    for k in range(nmat):
+        lit = gen_src_lit(rng, bits, spare)
+        ops.append({"op": "M", "mat": k, "alph": lit["alph"], "rows": lit["rows"]})
+        content[k] = {"alph": lit["alph"], "rows": {b: sy for b, sy in lit["rows"]}, "nchar": len(lit["rows"][0][1])}
+    nmap = rng.choice([1, 2, 2, 3])
+    for k in range(nmap):
+        if rng.random() < 0.6:
+            ops.append({"op": "T", "map": k, "src": {"mat": rng.randrange(nmat), "gaps": rng.random() < 0.5}})
+        else:
+            ops.append({"op": "T", "map": k, "src": gen_src_lit(rng, bits, spare)})
+    shared_w = [rng.choice([0, 1, 1, 2, 3]) for _ in range(7)]      # at least one weight per character of any matrix generated here
+
+    def weights():
+        r = rng.random()
+        return None if r < 0.45 else ("shared" if r < 0.85 else [rng.choice([0, 1, 2, 3]) for _ in range(rng.randint(6, 8))])
+
+    def by():
+        r = rng.random()
+        return "shared" if r < 0.5 else (True if r < 0.75 else False)
+
+    focus = rng.choice([None, None, "default", "other"])      # some histories stay with one setting, the others mix all of them
+    for _ in range(rng.randint(3, 9)):
+        r = rng.random()
+        if r < 0.55:
+            attr = focus if (focus or rng.random() < 0.5) and rng.random() < 0.8 else rng.choice([None, None, "default", "other", "third"])
+            if focus is None and rng.random() < 0.5:
+                attr = None
+            op = {"op": "S", "obj": rng.randrange(nobj), "via": "down", "attr": attr, "src": {"map": rng.randrange(nmap)},
+                  "weights": weights(), "by": by()}
+            if attr == "default" and rng.random() < 0.5:
+                op["implicit"] = True                                   # state_sets_attr_name not passed at all
+            ops.append(op)
+        elif r < 0.68:
+            via = rng.choice(["parsimony", "treescore", "down"])
+            src = {"mat": rng.randrange(nmat), "gaps": rng.random() < 0.5} if rng.random() < 0.7 else gen_src_lit(rng, bits, spare)
+            ops.append({"op": "S", "obj": rng.randrange(nobj), "via": via, "attr": rng.choice([None, "default", "other"]) if via == "down" else "default",
+                        "src": src, "weights": weights(), "by": by()})
+        elif r < 0.80:
+            q = rng.random()
+            if q < 0.3:
+                ops.append({"op": "C", "obj": rng.randrange(nobj), "how": rng.choice(["clone", "ctor"])})
+            else:
+                if q < 0.5 or len(bits) < 3:
+                    d = base                                            # a fresh object of the same tree
+                elif q < 0.7:
+                    d = base
+                    for s_ in [rng.choice(["LL", "LR", "RL", "RR"]) for _ in range(rng.randint(1, 2 * n))]:
+                        d = root_step(s_, d)
+                    if rng.random() < 0.4:
+                        d = shuffle_nested(rng, d)
+                elif q < 0.8:
+                    d = shuffle_nested(rng, base)
+                else:
+                    d = rand_nested(rng, bits, triroot=rng.random() < 0.15)          # a different tree on the same taxa
+                ops.append({"op": "N", "tree": nested_tokens(d)})
+            nobj += 1
+        elif r < 0.88:
+            k = rng.randrange(nmat)
+            c = content[k]
+            pools = []
+            for d_ in col_descs(c["alph"], c["nchar"]):
+                fund, tab, gm = col_info(d_)
+                pools.append(list(fund) + (["-", "?"] if gm else []) + [x for x in tab if len(tab[x]) > 1][:6])
+            bit = rng.choice(sorted(c["rows"]))
+            idx = rng.randrange(c["nchar"])
+            sym = rng.choice([x for x in pools[idx] if x != c["rows"][bit][idx]] or pools[idx])
+            ops.append({"op": "E", "mat": k, "how": rng.choice(["cell", "set_at"]), "bit": bit, "idx": idx, "sym": sym})
+            c["rows"][bit] = c["rows"][bit][:idx] + sym + c["rows"][bit][idx + 1:]
+            if rng.random() < 0.3:
+                ops.append({"op": "T", "map": rng.randrange(nmap), "src": {"mat": k, "gaps": rng.random() < 0.5}})
+        elif r < 0.95:
+            j = rng.randrange(nobj)
+            attr = focus or rng.choice(["default", "default", "other"])
+            ops.append({"op": "U", "obj": j, "attr": attr, "map": rng.choice([None, None, rng.randrange(nmap)])})
+            ops.append({"op": "D", "obj": j, "attr": attr})
+        else:
+            ops.append({"op": "D", "obj": rng.randrange(nobj), "attr": rng.choice(["default", "other"])})
+    if rng.random() < 0.5:
+        j = rng.randrange(nobj)
+        attr = focus or rng.choice(["default", "other"])
+        ops.append({"op": "D", "obj": j, "attr": attr})
+    return {"x": True, "ops": ops, "shared_weights": shared_w}
+
+
 def reroot_lines(toks, how, d, pending):
     """the harness's root slides are the model's `reroot` (the theorem root_position_independent speaks about it)"""
     if not how.startswith("reroot") or "shuffle" in how:
@@ -993,9 +1385,11 @@ def run(ctx):
             break
         r = rng.random()
         ml = max_leaves if rng.random() < 0.5 else 6
-        if r < 0.2:
+        if r < 0.15:
             run_case(ctx, dendropy, gen_matrix_history(dendropy, rng, ml), pending)
-        elif r < 0.55:
+        elif r < 0.37:
+            run_xcase(ctx, dendropy, gen_map_history(dendropy, rng, ml), pending)
+        elif r < 0.60:
             run_case(ctx, dendropy, gen_history(dendropy, rng, ml), pending)
         elif r < 0.85:
             case, (toks, how, d) = gen_equiv(dendropy, rng, ml)
@@ -1061,12 +1455,101 @@ def exhaustive(ctx, dendropy, pending):
                                            "%d re-rooted copies (every root position)%s" % (nshape, ncol, nroot, "" if done else " -- cut short by the time budget"))
 
 
+# ------------------------------------------------------------------ kernel-level cases: state sets handed over directly
+def run_kernel_case(ctx, dendropy, case):
+    """fitch_down_pass on a caller-made taxon_state_sets_map (sets of state indexes given directly, no matrix, no alphabet):
+    case = {"kernel": True, "tree": toks, "sets": [[bit, [[i, ...], ...]], ...], "weights": None or list, "attr": None/"default", "by": bool}"""
+    from dendropy.model import parsimony
+    toks = case["tree"]
+    nd = nested(toks)
+    bits = [b for b, _ in case["sets"]]
+    tns = dendropy.TaxonNamespace(["t%d" % i for i in range(max(bits) + 1)])
+    tree = tu.tree_from_tokens(dendropy, toks, tns=tns)[0]
+    tsm = {tns[b]: [set(x) for x in row] for b, row in case["sets"]}
+    by = [] if case.get("by", True) else None
+    ws = case.get("weights")
+    try:
+        sc = parsimony.fitch_down_pass(tree.postorder_node_iter(), state_sets_attr_name=ATTR_NAME.get(case.get("attr")),
+                                       taxon_state_sets_map=tsm, weights=ws, score_by_character_list=by)
+        got = (sc, by)
+    except Exception as e:
+        if not is_library_exception(e):
+            raise
+        got = ("Error", None)
+    leaves = []
+
+    def go(x):
+        if not x[2]:
+            leaves.append(x)
+        for c in x[2]:
+            go(c)
+    go(nd)
+    rows = dict((b, row) for b, row in case["sets"])
+    nchar = len(case["sets"][0][1])
+    per = []
+    for c in range(nchar):
+        k = min_changes_bruteforce(nd, {l[0]: frozenset(rows[l[1]][c]) for l in leaves})
+        per.append((1 if ws is None else ws[c]) * k)
+    want = (sum(per), per if by is not None else None)
+    ctx.case(["kernel", case], False, kind="kernel sweep (state sets given directly)")
+    if got != want:
+        ctx.fail("minimal", "fitch_down_pass on leaf state sets %s (weights=%s, state_sets_attr_name=%r) returned %s; the minimum number of "
+                 "changes gives %s" % (case["sets"], ws, ATTR_NAME.get(case.get("attr")), got, want), case)
+    if [[b, [sorted(x) for x in tsm[tns[b]]]] for b, _ in case["sets"]] != [[b, [sorted(set(x)) for x in row]] for b, row in case["sets"]]:
+        ctx.fail("input_mutated", "fitch_down_pass changed the caller's taxon_state_sets_map", case)
+
+
+def kernel_sweep(ctx, dendropy, max_leaves=4, nstates=3, budget_s=40):
+    """every binary shape <= max_leaves x every assignment of non-empty subsets of `nstates` states to the leaves (two characters per
+    call: the column and its reverse), unweighted and weighted, with and without node attributes / per-character list"""
+    import time
+    t0 = time.time()
+    subsets = [[i for i in range(nstates) if (v >> i) & 1] for v in range(1, 2 ** nstates)]
+    n_done = 0
+    for n in range(2, max_leaves + 1):
+        for shape in binary_shapes(n):
+            tns = tu.make_namespace(dendropy, n)
+            tree = tu.build_tree(dendropy, shape, tns, list(tns), None, None)
+            toks, _ = tu.encode_tree(tree, with_labels=False)
+            for combo in itertools.product(subsets, repeat=n):
+                if time.time() - t0 > budget_s or len(ctx.failures) >= 20:
+                    return n_done
+                k = n_done % 4
+                case = {"kernel": True, "tree": toks, "sets": [[b, [combo[b], combo[n - 1 - b]]] for b in range(n)],
+                        "weights": None if k < 2 else [2, 3], "attr": None if k % 2 else "default", "by": k != 3}
+                run_kernel_case(ctx, dendropy, case)
+                n_done += 1
+    return n_done
+
+
+def search(ctx, broken):
+    """an obligation broke (a kernel could not be regenerated from the source, or a bridge / property theorem no longer builds) or the model
+    and the code disagree: look for a concrete input on which the real code contradicts the statement, at the level of the kernels (every
+    small tree x every family of small state sets) and then with more random histories"""
+    dendropy = __import__("dendropy")
+    n = kernel_sweep(ctx, dendropy)
+    ctx.note("search: kernel sweep of %d direct fitch_down_pass calls after %d broken obligation(s) / %d disagreement(s)" % (
+        n, len(broken), len(ctx.disagreements)))
+    if not ctx.failures:
+        pending = []
+        import time
+        t0 = time.time()
+        while time.time() - t0 < 20 and not ctx.failures:
+            run_xcase(ctx, dendropy, gen_map_history(dendropy, ctx.rng, 6), pending)
+            run_case(ctx, dendropy, gen_history(dendropy, ctx.rng, 6), pending)
+        del pending[:]
+
+
 def replay(ctx, rec):
     dendropy = __import__("dendropy")
     case = rec["replay"]
     pending = []
     if "sweep" in case:
         alphabet_sweep(ctx, dendropy, case["sweep"], pending)
+    elif case.get("kernel"):
+        run_kernel_case(ctx, dendropy, case)
+    elif case.get("x"):
+        run_xcase(ctx, dendropy, case, pending)
     else:
         run_case(ctx, dendropy, case, pending)
     flush(ctx, pending)
